@@ -111,7 +111,8 @@ def gen_mesh(rng):
     qs.append([(a + b) / 2 + rng.uniform(-0.3, 0.3) for a, b in zip(verts[f[0]], verts[f[1]])])
     d_guess = rng.choice([0.05, 0.3, 1.0, 5.0])
     return {"k": "c02.mesh", "verts": verts, "faces": faces, "solid": False, "qs": qs, "max_dist": d_guess,
-            "max_angle": rng.choice([0.1, 0.5, 1.0, math.pi / 2, 0.0]), "kind": kind}
+            "max_angle": rng.choice([0.1, 0.5, 1.0, math.pi / 2, 0.0]), "kind": kind,
+            "frame": [rng.uniform(-20, 20) for _ in range(3)] + [rng.uniform(-2, 2) for _ in range(3)]}
 
 
 def corpus():
@@ -234,6 +235,7 @@ def oracle(c, r):
         scale = max(1.0, max(abs(x) for p in verts for x in p))
         md, ma = c["max_dist"], c["max_angle"]
         expect_in_tol = []
+        border = set()          # queries whose filtered answer is within rounding of a threshold
         for qi, (q, o) in enumerate(zip(c["qs"], r["out"])):
             qs = max(scale, max(abs(x) for x in q))
             what = "closest point to %r on a mesh of %d faces" % (q, len(faces))
@@ -264,6 +266,8 @@ def oracle(c, r):
                 break
             # distance cap: a result exactly when the true distance is within the cap
             near_cap = abs(best - md) <= 1e-9 * qs
+            if abs(best - md) <= 1e-6 * qs or best <= 1e-6 * qs:
+                border.add(qi)
             if not near_cap and (o["max"] is not None) != (best <= md):
                 yield ("mesh-cap", what + ": true distance %r, cap %r, capped query %s" % (best, md, "answered" if o["max"] else "gave nothing"))
                 break
@@ -297,6 +301,8 @@ def oracle(c, r):
                     ang = math.acos(max(-1.0, min(1.0, dot(local, raw) / (nl * nr))))
                     accept = ang < ma or ang > math.pi - ma
                     marg = min(abs(ang - ma), abs(ang - (math.pi - ma)))
+                    if marg <= 1e-5:
+                        border.add(qi)
                     if marg > 1e-6:
                         if (o["tol"] is not None) != accept:
                             yield ("mesh-angle-filter", what + ": offset makes %r rad with the face normal, limit %r, filtered query %s" % (ang, ma, "accepted" if o["tol"] else "rejected"))
@@ -318,3 +324,9 @@ def oracle(c, r):
         else:
             if sorted(expect_in_tol) != sorted(r["in_tol"]):
                 yield ("mesh-indices-in-tol", "indices_in_tol %r, per-point answers %r" % (r["in_tol"], expect_in_tol))
+            fr = r.get("in_tol_frame")
+            if fr is not None:
+                diff = (set(fr) ^ set(r["in_tol"])) - border
+                if diff:
+                    yield ("mesh-indices-frame", "indices_in_tol of the cloud given in the frame %r with its transform is %r, in the mesh's own frame %r (queries %r differ and are not within rounding of a threshold)" % (
+                        c["frame"], fr, r["in_tol"], sorted(diff)))
